@@ -193,13 +193,16 @@ def build(work, instances, need_run=True, jobs=run.NCPU):
                     "    for line in text.lines() { if let Some(n) = line.strip_prefix(\"@@ \") { cur = n.to_string(); m.insert(cur.clone(), vec![]); }\n"
                     "      else { let v: &mut Vec<String> = m.get_mut(&cur).unwrap(); v.push(line.replace(\"\\\\n\", \"\\n\").replace(\"\\\\t\", \"\\t\").replace(\"\\\\\\\\\", \"\\\\\")); } }\n"
                     "    m };\n")
+            f.write("  let after = std::env::args().nth(2).unwrap_or_default();\n  let mut go = after.is_empty();\n")
             for inst in live:
                 if inst.get("table") is None or inst["settings"].get("builder") == "custom" \
                         or inst["settings"].get("lexer") == "custom":
                     continue
                 n = inst["name"]
+                f.write('  if !go { if after == "%s" { go = true; } } else {\n' % n)
+                f.write('  println!("@@B %s");\n' % n)
                 f.write('  println!("@@T %s {}", %s::q::table());\n' % (n, n))
-                f.write('  for i in inputs.get("%s").map(|v| v.as_slice()).unwrap_or(&[]) { println!("@@R %s {}", %s::q::run_one(i).replace("\\n", " ")); }\n' % (n, n, n))
+                f.write('  for i in inputs.get("%s").map(|v| v.as_slice()).unwrap_or(&[]) { println!("@@R %s {}", %s::q::run_one(i).replace("\\n", " ")); }\n  }\n' % (n, n, n))
             f.write("}\n")
         t0 = time.time()
         cmd = ["cargo", "build" if need_run else "check", "--offline", "--message-format=json", "-j", str(jobs)]
@@ -244,17 +247,27 @@ def build(work, instances, need_run=True, jobs=run.NCPU):
                 for t in inst.get("inputs", []):
                     f.write(t.replace("\\", "\\\\").replace("\n", "\\n").replace("\t", "\\t") + "\n")
         exe = os.path.join(VGEN, "target", "debug", "vgen")
-        r = subprocess.run("ulimit -v 8000000; exec %s %s" % (exe, ip), shell=True, executable="/bin/bash",
-                           capture_output=True, text=True, timeout=1800)
-        if r.returncode != 0:
-            run.log("vgen binary exit %d: %s" % (r.returncode, r.stderr[-300:]))
-        for line in r.stdout.split("\n"):
-            if line.startswith("@@T "):
-                _, name, js = line.split(" ", 2)
-                out[name]["table"] = json.loads(js)
-            elif line.startswith("@@R "):
-                _, name, rest = line.split(" ", 2)
-                out[name]["runs"].append(rest)
-        for inst in live:
-            out[inst["name"]]["ran"] = r.returncode == 0
+        after = ""
+        for _ in range(50):
+            r = subprocess.run("ulimit -v 8000000; ulimit -s 1000000; exec %s %s %s" % (exe, ip, after), shell=True,
+                               executable="/bin/bash", capture_output=True, text=True, timeout=1800)
+            cur = None
+            for line in r.stdout.split("\n"):
+                if line.startswith("@@B "):
+                    cur = line.split(" ", 1)[1].strip()
+                    out[cur]["runs"] = []
+                elif line.startswith("@@T "):
+                    _, name, js = line.split(" ", 2)
+                    out[name]["table"] = json.loads(js)
+                elif line.startswith("@@R "):
+                    _, name, rest = line.split(" ", 2)
+                    out[name]["runs"].append(rest)
+            if r.returncode == 0 or cur is None:
+                break
+            # the process died inside instance `cur` (stack overflow / abort in generated
+            # parser or runtime): record it and continue after it
+            run.log("vgen binary died in %s (exit %d)" % (cur, r.returncode))
+            out[cur]["crashed"] = True
+            out[cur]["runs"].append("crash")
+            after = cur
     return out
